@@ -12,7 +12,7 @@ EXPLANATION = ("R1: every array-indexed copy of the BLAKE3 round function is eva
                "blake3_avx512.c round_fn4/8/16. R2: feed-forward st[i]^st[i+8] (and st[i+8]^cv[i] for the XOF form). "
                "K4: every load_counters* (C sse2/sse41/avx2/avx512 x3; Rust sse2/sse41/avx2) is decided lane by lane by an "
                "exact piecewise-affine abstract interpretation over the counter's low word with partition refinement: lane i "
-               "= (lo32, hi32)(counter + i*increment) on every cell, for both increment modes. K5: the 16 rows of every transposed state (C hash4/8/16, xof4/8/16; Rust hash4/hash8) are "
+               "= (lo32, hi32)(counter + i*increment) on every cell, for both increment modes. F8: the block-flag schedule inside every hash1/hashN copy (Rust x6, C x10): flags|flags_start before the first block, |= flags_end under the last-block test, reset to flags after each compression. ST: every stage of the hash_many / xof_many drivers (C x14 stages, Rust x3) consumes N items, advances the counter by N (under increment_counter for hash_many), the output by N*32 (N*64 for xof) and passes the cursors through to the width-N kernel. K5: the 16 rows of every transposed state (C hash4/8/16, xof4/8/16; Rust hash4/hash8) are "
                "h_vecs[0..8] = set1(key|cv[i]), set1(IV[0..4]), counter lo, counter hi (the two outputs of load_counters*), block length, flags. "
                "See the property's residual in DESIGN.md: shuffle-based single-block kernels, transposition networks "
                "and the semantics of the assembly bodies are NOT decided by R1.")
@@ -37,6 +37,10 @@ def run(ctx):
     ctx.run_rule("K1asm", r_asm.rule_K1asm)
     ctx.run_rule("K4c", r_round.rule_K4_c)
     ctx.run_rule("K4r", r_round.rule_K4_rust, ["pure-full"])
+    ctx.run_rule("F8r", r_round.rule_F8_rust, ["pure-full", "asm-full", "portable1"])
+    ctx.run_rule("F8c", r_round.rule_F8_c)
+    ctx.run_rule("STc", r_round.rule_ST_c)
+    ctx.run_rule("STr", r_round.rule_ST_rust, ["pure-full"])
     ctx.run_rule("K5c", r_round.rule_K5_c)
     ctx.run_rule("K5r", r_round.rule_K5_rust, ["pure-full"])
     for name in ("rule_R1_c",):
